@@ -7,7 +7,7 @@ ROOT = os.path.dirname(os.path.dirname(os.path.abspath(__file__)))
 CLAIMED = {
     "C08": dict(
         category="proof",
-        text="Theorems in coq/Props/Properties_C08.v (proved for all byte strings / texts / output sizes, no hypotheses) about a shape-for-shape Gallina model of lib/b64.c over the alphabet and block sizes regenerated from the source on every run: round trips, canonicity, rejection classes, length maps, refinement of the C loops to the RFC 4648 specification, write bounds, look-ahead in range, size query. Tie: extracted model vs jose_b64_{enc,dec}_buf on canaried buffers (exhaustive small sub-spaces + seeded random to 64 KiB), plus an independent Python oracle for the search.",
+        text="Theorems in coq/Props/Properties_C08.v (proved for all byte strings / texts / output sizes, no hypotheses) about a shape-for-shape Gallina model of lib/b64.c over the alphabet and block sizes regenerated from the source on every run: round trips, canonicity, rejection classes, length maps, refinement of the C loops to the RFC 4648 specification, write bounds, look-ahead in range, size query. Tie: extracted model vs jose_b64_{enc,dec}_buf on canaried buffers (exhaustive small sub-spaces + seeded random to 64 KiB), plus an independent Python oracle for the search. Also exercised: the JSON-string / load / encode / dump forms on the same texts (embedded NUL, non-strings, documents of 400..70000 octets), all two-feed splits of the streaming encoder and decoder on texts longer than the internal blocks.",
         design_ref="DESIGN.md section 3 C08",
         note="Coq kernel + vm_compute sweeps; no axioms; C compiler/ABI and the ol = SIZE_MAX corner not modelled; correspondence is differential testing.",
         technique="Coq proof (induction by 3/4-byte groups, vm_compute digit sweeps) + extracted-model correspondence",
@@ -16,7 +16,7 @@ CLAIMED = {
 
 CLAIMED["C07"] = dict(
     category="proof",
-    text="Theorems in coq/Props/Properties_C07.v about an executable Gallina model of lib/io.c (sinks, multiplexer) and of the staging loops of lib/b64.c: the streaming base64url stages equal the one-shot codec for EVERY split into feeds (induction over chunk lists, no bound); the chunking theorem C07_chunking for every chain of lawful stages, sinks and arbitrarily nested multiplexers (structural induction on the chain); failure propagation; buffer capacity invariant; any/all multiplexer verdicts and dropped branches. OpenSSL/zlib-backed stages enter through the stream law (accumulate-then-emit stages proved outright; incremental ones under the prefix-extension hypothesis). Tie: extracted model vs chains built from the public constructors plus a fault-injecting sink, all compositions of short inputs, boundary lengths, every fault position.",
+    text="Theorems in coq/Props/Properties_C07.v about an executable Gallina model of lib/io.c (sinks, multiplexer) and of the staging loops of lib/b64.c: the streaming base64url stages equal the one-shot codec for EVERY split into feeds (induction over chunk lists, no bound); the chunking theorem C07_chunking for every chain of lawful stages, sinks and arbitrarily nested multiplexers (structural induction on the chain); failure propagation; buffer capacity invariant; any/all multiplexer verdicts and dropped branches. OpenSSL/zlib-backed stages enter through the stream law (accumulate-then-emit stages proved outright; incremental ones under the prefix-extension hypothesis). Tie: extracted model vs chains built from the public constructors plus a fault-injecting sink, all compositions of short inputs, boundary lengths, every fault position. Also exercised: per-branch metamorphic oracle (a branch inside a multiplexer delivers what it delivers alone) and verdict oracle (any = OR, all = AND); deflate / inflate stages (implementation only): chunkings, exact buffer capacity behind the compressor, faults at feed and done.",
     design_ref="DESIGN.md section 3 C07",
     note="Coq kernel; no axioms; hypothesis of C07_prefix_stream (output of a cipher/deflate stage for a longer input extends that for a prefix) is a property of OpenSSL/zlib, not proved; the model's list-at-once semantics is tied to the per-call C code by the correspondence only.",
     technique="Coq proof (induction on chunk lists and on chain structure) + extracted-model correspondence with fault injection",
@@ -24,7 +24,7 @@ CLAIMED["C07"] = dict(
 
 CLAIMED["C16"] = dict(
     category="proof",
-    text="Theorems in coq/Props/Properties_C16.v about a Gallina model of add_entity() (lib/openssl/misc.c) and encode_protected() (lib/misc.c): one step (C16_step) and any history (C16_history, induction over the list of additions, unbounded) keep the object in exactly one RFC form -- flattened iff one entry, general iff more, an empty list counts as absent --, entries appear in the order added, migration moves the existing entry unchanged, other members are untouched, an encoded protected header is never altered. Tie: extracted model vs the real add_entity/encode_protected on all histories of length <= 4 over 5 templates from 6 start shapes (both flavours), malformed inputs of every JSON type, long random histories; independent Python oracle for the search.",
+    text="Theorems in coq/Props/Properties_C16.v about a Gallina model of add_entity() (lib/openssl/misc.c) and encode_protected() (lib/misc.c): one step (C16_step) and any history (C16_history, induction over the list of additions, unbounded) keep the object in exactly one RFC form -- flattened iff one entry, general iff more, an empty list counts as absent --, entries appear in the order added, migration moves the existing entry unchanged, other members are untouched, an encoded protected header is never altered. Tie: extracted model vs the real add_entity/encode_protected on all histories of length <= 4 over 5 templates from 6 start shapes (both flavours), malformed inputs of every JSON type, long random histories; independent Python oracle for the search. Also exercised: end-to-end jose_jwe_enc with key sets x template forms (general form, no shared per-recipient parameters, every recipient decrypts); `jose jws sig` adding a signature to an existing JWS in six input forms; already-encoded protected headers of every flavour (CRLF, unsorted, spaced, escaped, duplicate members, not JSON, not base64url) kept verbatim.",
     design_ref="DESIGN.md section 3 C16",
     note="Coq kernel; no axioms; JSON modelled as immutable trees (jansson aliasing between appended object and caller's object not represented); premises: no duplicate member names, each addition carries an entry member.",
     technique="Coq proof (case analysis on forms, induction over histories) + extracted-model correspondence",
@@ -32,7 +32,7 @@ CLAIMED["C16"] = dict(
 
 CLAIMED["C05"] = dict(
     category="proof",
-    text="Theorems in coq/Props/Properties_C05.v: jose_jwk_prm (model over the operation table regenerated from the running registry) EQUALS the RFC 7517 grant formula of the property for every JSON object and operation name (C05_prm_spec; the table itself is proved to be RFC 7517's eight operations); at sign, verify, unwrap, content encryption, content decryption and exchange the decision models refuse EVERY pair of different strings (header/peer alg vs key alg), independent of the registered algorithms and of lexicographic order; an operation that proceeds was granted. Tie: the decision models run with ideal primitives built from the regenerated registry vs the real entry points on complete grids (all ordered name pairs incl. foreign names; all 2^8 key_ops subsets x use x op x req), objects produced by the library with keys valid for the header algorithm so that a skipped comparison shows as acceptance.",
+    text="Theorems in coq/Props/Properties_C05.v: jose_jwk_prm (model over the operation table regenerated from the running registry) EQUALS the RFC 7517 grant formula of the property for every JSON object and operation name (C05_prm_spec; the table itself is proved to be RFC 7517's eight operations); at sign, verify, unwrap, content encryption, content decryption and exchange the decision models refuse EVERY pair of different strings (header/peer alg vs key alg), independent of the registered algorithms and of lexicographic order; an operation that proceeds was granted. Tie: the decision models run with ideal primitives built from the regenerated registry vs the real entry points on complete grids (all ordered name pairs incl. foreign names; all 2^8 key_ops subsets x use x op x req), objects produced by the library with keys valid for the header algorithm so that a skipped comparison shows as acceptance. Also exercised: use/key_ops enforced at every entry point (sign, verify, wrap, unwrap for five families, content encryption, both keys of ECDH and ECMR) over 10 metadata shapes; content decryption with enc in the unauthenticated shared header only.",
     design_ref="DESIGN.md section 3 C05",
     note="Coq kernel; no axioms; the models of the entry points' decision prefixes are hand-written and tied by correspondence; jose_jwe_enc_jwk (wrapping) is not in the property's list.",
     technique="Coq proof (boolean case analysis over the generated table; unfolding of decision prefixes) + exhaustive-grid correspondence",
@@ -40,7 +40,7 @@ CLAIMED["C05"] = dict(
 
 CLAIMED["C06"] = dict(
     category="proof",
-    text="Theorems in coq/Props/Properties_C06.v about a Gallina model of jwk_clean/jose_jwk_pub over the type and operation tables regenerated from the running registry: after a successful export no key holds any private member of its type (and the generated lists are proved to cover RFC 7518 section 6: oct k; RSA d p q dp dq qi oth; EC d), every other member is unchanged, key_ops loses exactly the private operations (all eight for symmetric keys), the export is idempotent, the RFC 7638 thumbprint input of asymmetric keys is unchanged, arrays and JWKSets of any length are exported element-wise (induction on the list). Tie: extracted model vs jose_jwk_pub on all subsets of present private members x extras x key_ops variants x kty spellings x nestings, with an independent Python oracle. Produced JWS/JWE objects are scanned for key material by the C03/C04 runs.",
+    text="Theorems in coq/Props/Properties_C06.v about a Gallina model of jwk_clean/jose_jwk_pub over the type and operation tables regenerated from the running registry: after a successful export no key holds any private member of its type (and the generated lists are proved to cover RFC 7518 section 6: oct k; RSA d p q dp dq qi oth; EC d), every other member is unchanged, key_ops loses exactly the private operations (all eight for symmetric keys), the export is idempotent, the RFC 7638 thumbprint input of asymmetric keys is unchanged, arrays and JWKSets of any length are exported element-wise (induction on the list). Tie: extracted model vs jose_jwk_pub on all subsets of present private members x extras x key_ops variants x kty spellings x nestings, with an independent Python oracle. Produced JWS/JWE objects are scanned for key material by the C03/C04 runs. Also exercised (implementation only): every object the library produces while holding private keys -- all signature and key-management algorithms x header placements, ECDH-ES ephemeral keys, exchanges -- scanned at every depth and inside encoded headers for private member names and copies of secret values.",
     design_ref="DESIGN.md section 3 C06",
     note="Coq kernel; no axioms; objects without duplicate member names; the 'produced objects' half is a structural/runtime check, confidentiality of ciphertexts is not claimed.",
     technique="Coq proof (association-list lemmas, vm_compute over the generated tables, induction on key lists) + extracted-model correspondence",
@@ -48,7 +48,7 @@ CLAIMED["C06"] = dict(
 
 CLAIMED["C11"] = dict(
     category="proof",
-    text="Theorems in coq/Props/Properties_C11.v about a statement-by-statement Gallina model of jose_jwk_gen (the 12 preparation hooks in the running order dumped from the harness, the oct/RSA/EC makers, the post-processing): an accepted template is consistent and every contradictory / unsupported / too-small / nothing-generable template is rejected (both directions: C11_accepted_is_consistent, C11_rejects, C11_accepts_iff); the algorithm-implied kty/crv/bytes table is RFC 7518's; an oct key's k is exactly the first n drawn octets with n the requested or implied size (any other 'bytes', 0 included, is a contradiction); RSA: 2048 <= bits <= 16384 on the 64-bit value, exponent accepted iff 3 or odd in [2^16, 2^256) and never negative, members are the generated numbers; generation-only members are gone for every accepted template; key_ops inferred exactly per algorithm kind and left alone when use/key_ops is given; other members pass through; required members present. What OpenSSL's generators deliver enters as Section hypotheses (modulus of 2*(bits/2) bits, n = pq, ed = 1 mod lcm, CRT members; d G = Q on the requested curve) which python re-checks on every generated key. Tie: ~3 600 templates (every registered algorithm x kty/crv/bits/bytes/e incl. boundaries, with/without use/key_ops) on jose_jwk_gen vs the extracted model after masking random material; every accepted key is used once with its algorithm; freshness (keys, CEKs, IVs, salts, epks never repeat) over ~2 100 pairwise checks.",
+    text="Theorems in coq/Props/Properties_C11.v about a statement-by-statement Gallina model of jose_jwk_gen (the 12 preparation hooks in the running order dumped from the harness, the oct/RSA/EC makers, the post-processing): an accepted template is consistent and every contradictory / unsupported / too-small / nothing-generable template is rejected (both directions: C11_accepted_is_consistent, C11_rejects, C11_accepts_iff); the algorithm-implied kty/crv/bytes table is RFC 7518's; an oct key's k is exactly the first n drawn octets with n the requested or implied size (any other 'bytes', 0 included, is a contradiction); RSA: 2048 <= bits <= 16384 on the 64-bit value, exponent accepted iff 3 or odd in [2^16, 2^256) and never negative, members are the generated numbers; generation-only members are gone for every accepted template; key_ops inferred exactly per algorithm kind and left alone when use/key_ops is given; other members pass through; required members present. What OpenSSL's generators deliver enters as Section hypotheses (modulus of 2*(bits/2) bits, n = pq, ed = 1 mod lcm, CRT members; d G = Q on the requested curve) which python re-checks on every generated key. Tie: ~3 600 templates (every registered algorithm x kty/crv/bits/bytes/e incl. boundaries, with/without use/key_ops) on jose_jwk_gen vs the extracted model after masking random material; every accepted key is used once with its algorithm; freshness (keys, CEKs, IVs, salts, epks never repeat) over ~2 100 pairwise checks. Also exercised: two-recipient encryptions with the randomised recipient in second position (salt / epk / iv fresh for every recipient); generation after an earlier key was exported in place (independence of successive generations).",
     design_ref="DESIGN.md section 3 C11",
     note="PARTIAL for freshness: a property of OpenSSL's RNG, checked dynamically only (no deterministic-RNG hook). Open known findings: a key generated for alg 'dir' does not work with dir; odd RSA sizes are rounded down by OpenSSL.",
     technique="Coq proof on a statement-level model of the generation hooks (generators as Section hypotheses) + extracted-model correspondence with masked randomness and use-the-key oracle",
@@ -56,7 +56,7 @@ CLAIMED["C11"] = dict(
 
 CLAIMED["C12"] = dict(
     category="proof",
-    text="Theorems in coq/Props/Properties_C12.v about Gallina models of jwk_str/jose_jwk_thp/_thp_buf/jose_jwk_eql over the regenerated type table: the digest input holds exactly kty and the RFC 7638 required members (the generated lists are proved equal to RFC 7638's), ignores all other members, is the same for a key and its public half, string and buffer forms agree and the size query is the digest length; equality is exactly 'type known, kty and required members present and json_equal', is reflexive/symmetric/transitive (json_equal itself is proved an equivalence on duplicate-free values by induction on JSON trees), and a key without thumbprint equals nothing. Tie: extracted model (with Gallina SHA-1/2) vs the real functions on generated keys incl. non-ASCII/escaped/non-string members, all hash names, buffer sizes 0..65, pairs and triples; Python hashlib oracle.",
+    text="Theorems in coq/Props/Properties_C12.v about Gallina models of jwk_str/jose_jwk_thp/_thp_buf/jose_jwk_eql over the regenerated type table: the digest input holds exactly kty and the RFC 7638 required members (the generated lists are proved equal to RFC 7638's), ignores all other members, is the same for a key and its public half, string and buffer forms agree and the size query is the digest length; equality is exactly 'type known, kty and required members present and json_equal', is reflexive/symmetric/transitive (json_equal itself is proved an equivalence on duplicate-free values by induction on JSON trees), and a key without thumbprint equals nothing. Tie: extracted model (with Gallina SHA-1/2) vs the real functions on generated keys incl. non-ASCII/escaped/non-string members, all hash names, buffer sizes 0..65, pairs and triples; Python hashlib oracle. Also exercised (implementation only): JWK -> EVP_PKEY / EC_KEY / RSA -> JWK round trips of python-built EC keys whose x / y / d start with a zero octet on four curves and of RSA keys: members, thumbprint and equality preserved; pairs that differ only in the letter case of kty.",
     design_ref="DESIGN.md section 3 C12",
     note="Coq kernel; no axioms; NOT proved: injectivity of the JSON dump and collision-freeness of SHA (so 'equal iff same thumbprint' is shown as 'decided by the same members'); jose/openssl.h conversions are checked on the implementation only.",
     technique="Coq proof (induction on JSON trees, table lemmas by vm_compute) + extracted-model correspondence with an independent hashlib oracle",
@@ -64,7 +64,7 @@ CLAIMED["C12"] = dict(
 
 CLAIMED["C15"] = dict(
     category="proof",
-    text="Theorems in coq/Props/Properties_C15.v about Gallina models of jose_jws_hdr/jose_jwe_hdr, find_alg (JWS), jwe_hdr_set_new and the zip lookup: for every parameter name the merged header is first-of(protected, [shared unprotected,] per-recipient/unprotected) whether protected is an object, encoded text or absent; zip is read from the encoded protected header only; a caller-supplied alg is the one applied and the object is left as is; an inferred alg is the first suggestion in registry order and is written into the protected header; an inferred enc goes into protected while that is an object, else into shared unprotected. The suggestion hooks (all families) are transcribed in Jose/Suggest.v. Tie: extracted models vs the real functions on every presence pattern x protected form, every key type/size/curve with/without alg, password lengths 0..41, and the recording paths of sign / content-encrypt / wrap.",
+    text="Theorems in coq/Props/Properties_C15.v about Gallina models of jose_jws_hdr/jose_jwe_hdr, find_alg (JWS), jwe_hdr_set_new and the zip lookup: for every parameter name the merged header is first-of(protected, [shared unprotected,] per-recipient/unprotected) whether protected is an object, encoded text or absent; zip is read from the encoded protected header only; a caller-supplied alg is the one applied and the object is left as is; an inferred alg is the first suggestion in registry order and is written into the protected header; an inferred enc goes into protected while that is an object, else into shared unprotected. The suggestion hooks (all families) are transcribed in Jose/Suggest.v. Tie: extracted models vs the real functions on every presence pattern x protected form, every key type/size/curve with/without alg, password lengths 0..41, and the recording paths of sign / content-encrypt / wrap. Also exercised: one template applied to several keys with differing inferred algorithms (metamorphic: each key alone); which content algorithm was APPLIED (IV size, product decrypts); conflicting apu / apv / p2c / alg / enc in two headers end to end; an inferred algorithm must be in the protected header.",
     design_ref="DESIGN.md section 3 C15",
     note="Coq kernel; no axioms; header objects without duplicate names; primitives ideal in the recording models (which primitive runs behind a recorded name is C03/C04).",
     technique="Coq proof (fold lemmas for json_object_update_missing, case analysis) + extracted-model correspondence",
@@ -72,7 +72,7 @@ CLAIMED["C15"] = dict(
 
 CLAIMED["C01"] = dict(
     category="proof",
-    text="Theorems in coq/Props/Properties_C01.v about a Gallina model of jose_jws_ver_io/jose_jws_ver (lib/jws.c) built on the IO-chain model of C07, for ANY list of signature algorithms: C01_verdict -- for every split of the payload into feeds, the verdict of the final done() equals a closed-form function (any/all over keys of any-over-signature-objects of: key permitted, algorithm = merged header's or key's declared one, primitive check over exactly protected || '.' || payload with exactly the decoded signature); one-shot = streamed; soundness read off that function; the vacuous cases (empty key set, empty/absent signature list, absent signature, unknown algorithm such as 'none') fail. Tie: extracted model with Gallina HMAC-SHA2 vs the library on library-produced tokens, every key-set shape and mode, single-character mutations of payload/protected/signature/key, structural mutations, all compositions of the payload into feeds; RSA/PSS/ECDSA tokens evaluated on the BigZ model inside coqc.",
+    text="Theorems in coq/Props/Properties_C01.v about a Gallina model of jose_jws_ver_io/jose_jws_ver (lib/jws.c) built on the IO-chain model of C07, for ANY list of signature algorithms: C01_verdict -- for every split of the payload into feeds, the verdict of the final done() equals a closed-form function (any/all over keys of any-over-signature-objects of: key permitted, algorithm = merged header's or key's declared one, primitive check over exactly protected || '.' || payload with exactly the decoded signature); one-shot = streamed; soundness read off that function; the vacuous cases (empty key set, empty/absent signature list, absent signature, unknown algorithm such as 'none') fail. Tie: extracted model with Gallina HMAC-SHA2 vs the library on library-produced tokens, every key-set shape and mode, single-character mutations of payload/protected/signature/key, structural mutations, all compositions of the payload into feeds; RSA/PSS/ECDSA tokens evaluated on the BigZ model inside coqc. Also exercised: a non-string protected member injected into tokens signed with an unprotected header only; private-form EC/RSA keys whose public members were altered; truncated / empty MACs.",
     design_ref="DESIGN.md section 3 C01",
     note="Coq kernel; no axioms in the theorems (Bignums' primitive Int63 ops only in the executable public-key instance); unforgeability of the primitives is cryptography and assumed; empty-signature rejection needs a per-algorithm fact.",
     technique="Coq proof (reduction of the verifier IO object to a closed-form verdict via the C07 multiplexer theorems) + extracted-model / vm_compute correspondence with mutation",
@@ -88,7 +88,7 @@ CLAIMED["C19"] = dict(
 
 CLAIMED["C03"] = dict(
     category="proof",
-    text="Theorems in coq/Props/Properties_C03.v: the product of jose_jws_sig (model in Jose/Jws.v, Jose/SigAlgs.v) is the RFC 7515 construction -- algorithm chosen and recorded as in C15, protected header encoded once and used verbatim, signing input protected || '.' || payload, signature member = base64url of the signature octets (which decodes back), merged by add_entity (C16); the verifier (C01) evaluates the primitive on the same bytes; the HMAC family satisfies verify(sign(m)); RFC 7515 A.1 is reproduced bit for bit inside the kernel (vm_compute). Tie, both directions: jose's HMAC products compared bit for bit with the extracted model and with python hmac over key sizes 0..1025, every algorithm source, template form, start form, key sets; jose's RSA/PSS/ECDSA products verified by the independent BigZ implementation (for RSASSA-PKCS1-v1_5 this is bit-identity: s^e mod n = EM); tokens produced by the model (HMAC; ECDSA with supplied nonce) and all RFC 7515 / RFC 7520 section 4 examples verify in jose.",
+    text="Theorems in coq/Props/Properties_C03.v: the product of jose_jws_sig (model in Jose/Jws.v, Jose/SigAlgs.v) is the RFC 7515 construction -- algorithm chosen and recorded as in C15, protected header encoded once and used verbatim, signing input protected || '.' || payload, signature member = base64url of the signature octets (which decodes back), merged by add_entity (C16); the verifier (C01) evaluates the primitive on the same bytes; the HMAC family satisfies verify(sign(m)); RFC 7515 A.1 is reproduced bit for bit inside the kernel (vm_compute). Tie, both directions: jose's HMAC products compared bit for bit with the extracted model and with python hmac over key sizes 0..1025, every algorithm source, template form, start form, key sets; jose's RSA/PSS/ECDSA products verified by the independent BigZ implementation (for RSASSA-PKCS1-v1_5 this is bit-identity: s^e mod n = EM); tokens produced by the model (HMAC; ECDSA with supplied nonce) and all RFC 7515 / RFC 7520 section 4 examples verify in jose. Also exercised: 300 ECDSA products per curve checked for full-width r||s and verified by an independent python verifier; key sets signed with one template (per-key HMAC recomputation); several signatures of one algorithm verified with every key alone, in both orders and in all-mode.",
     design_ref="DESIGN.md section 3 C03/C04",
     note="Coq kernel; no axioms in the theorems (Int63 primitives only inside the BigZ evaluation); primitive laws for RSA/ECDSA and JSON parse(dump)=id are assumed/validated, not proved; Gallina primitives validated on standard vectors.",
     technique="Coq proof (unfolding of the signing pipeline, base64 round trip) + bit-exact correspondence and cross-verification with independent Gallina primitives (extracted and vm_compute/BigZ)",
@@ -96,7 +96,7 @@ CLAIMED["C03"] = dict(
 
 CLAIMED["C09"] = dict(
     category="proof",
-    text="PARTIAL by nature: memory safety of C text cannot be proved with what is installed (no C semantics). What IS proved (coq/Props/Properties_C09.v, ownership model coq/Mem/Own.v: heap of reference-counted nodes, programs in a state monad whose failure is 'use or release of a freed node'): for EVERY caller JSON tree (any type of any member at any depth) the header-merge and protected-header glue -- jose_jws_hdr, jose_jwe_hdr, the prologue of jose_jwe_dec_cek_io, encode_protected, zip_in_protected_header, the zip epilogue of jose_jwe_enc_cek_io -- never touches a freed node and gives back every reference (the caller's heap is restored exactly, nothing created survives); jwe_hdr_set_new on a kernel-computed sweep of all kinds; IO chains release their downstream; regression witnesses for the four repaired defects; and for the 25 decoder call sites with fixed buffers: under the recorded guard the requested length <= capacity so every decoder write lands inside (from C08's dec_buf_bounds). What decides the C text: every one of the 29 JSON-consuming exports (re-read from libjose.map on every run) + 2 internal glue functions called under ASan(use-after-scope)+UBSan+LSan with a counting/poisoning jansson allocator and reference-count comparison of every caller node, on valid objects of every registered algorithm and ~19 000 single structured mutations stratified over ~9 600 (function, argument, member, mutation kind) strata; the glue programs are compared with the extracted model.",
+    text="PARTIAL by nature: memory safety of C text cannot be proved with what is installed (no C semantics). What IS proved (coq/Props/Properties_C09.v, ownership model coq/Mem/Own.v: heap of reference-counted nodes, programs in a state monad whose failure is 'use or release of a freed node'): for EVERY caller JSON tree (any type of any member at any depth) the header-merge and protected-header glue -- jose_jws_hdr, jose_jwe_hdr, the prologue of jose_jwe_dec_cek_io, encode_protected, zip_in_protected_header, the zip epilogue of jose_jwe_enc_cek_io -- never touches a freed node and gives back every reference (the caller's heap is restored exactly, nothing created survives); jwe_hdr_set_new on a kernel-computed sweep of all kinds; IO chains release their downstream; regression witnesses for the four repaired defects; and for the 25 decoder call sites with fixed buffers: under the recorded guard the requested length <= capacity so every decoder write lands inside (from C08's dec_buf_bounds). What decides the C text: every one of the 29 JSON-consuming exports (re-read from libjose.map on every run) + 2 internal glue functions called under ASan(use-after-scope)+UBSan+LSan with a counting/poisoning jansson allocator and reference-count comparison of every caller node, on valid objects of every registered algorithm and ~19 000 single structured mutations stratified over ~9 600 (function, argument, member, mutation kind) strata; the glue programs are compared with the extracted model. Also exercised: values decoding to exactly 1024/1025/1040/1041 octets for every member that feeds a fixed buffer; start objects with empty / existing signature and recipient lists, key sets with template forms; every valid call and a tenth of the mutations repeated WITHOUT the harness' extra references (sanitizer report, leak count, verdict equal to the pinned run).",
     design_ref="DESIGN.md section 3 C09",
     note="The theorems are about hand-translated programs (C statement beside every line) over a model of jansson's reference counting; UB-freedom / leak-freedom of the compiled C code is OBSERVED by sanitizers on the explored inputs, not proved. find_alg and the jcmd ios arrays are not modelled.",
     technique="Coq proof on an ownership (reference-count) model of the JSON glue and on buffer-guard obligations + sanitizer-instrumented stratified mutation run compared with the extracted model",
@@ -112,7 +112,7 @@ CLAIMED["C10"] = dict(
 
 CLAIMED["C18"] = dict(
     category="proof",
-    text="Theorems in coq/Props/Properties_C18.v about a Gallina model of the command glue in cmd/ (what jcmd_*_prep_io multiplexes, how the payload/ciphertext is fed, exit status as a function of the library verdicts, the C tests on return values as written): jose jws ver exits 0 only if the library verdict on the text actually fed is 'valid' for EVERY option combination (C18_ver_exit), jwe dec exit 0 implies CEK unwrapped, canonical text and stdout = the decrypted octets; every library refusal (pub, use, eql, exc, gen, thp, b64 dec, sig, enc wrap/new/run) gives a non-zero status and no complete product; compact parsing/printing round trips, multi-signature / multi-recipient objects cannot be made compact, flattened<->general conversions; the streamed member is never repeated in JSON output. Library behaviour enters through the existing models (C01..C07, C12). Tie: ~3400 runs of the real binary per seed (all sub-commands, option combinations, file/stdin/stdout plumbing, detached forms, second round feeding products back into ver/dec) vs the extracted model on exit status and output, plus an implementation-only oracle against the library harness.",
+    text="Theorems in coq/Props/Properties_C18.v about a Gallina model of the command glue in cmd/ (what jcmd_*_prep_io multiplexes, how the payload/ciphertext is fed, exit status as a function of the library verdicts, the C tests on return values as written): jose jws ver exits 0 only if the library verdict on the text actually fed is 'valid' for EVERY option combination (C18_ver_exit), jwe dec exit 0 implies CEK unwrapped, canonical text and stdout = the decrypted octets; every library refusal (pub, use, eql, exc, gen, thp, b64 dec, sig, enc wrap/new/run) gives a non-zero status and no complete product; compact parsing/printing round trips, multi-signature / multi-recipient objects cannot be made compact, flattened<->general conversions; the streamed member is never repeated in JSON output. Library behaviour enters through the existing models (C01..C07, C12). Tie: ~3400 runs of the real binary per seed (all sub-commands, option combinations, file/stdin/stdout plumbing, detached forms, second round feeding products back into ver/dec) vs the extracted model on exit status and output, plus an implementation-only oracle against the library harness. Also exercised: header parameters split over protected / shared unprotected with the algorithm named explicitly, compact and JSON output.",
     design_ref="DESIGN.md section 3 C18",
     note="Coq kernel; no axioms. getopt, fopen, tty newline and the password prompt are exercised by the correspondence, not modelled; cipher stages are modelled by their verdict at done(); jwe enc runs over three library steps given as Section variables.",
     technique="Coq proof on a glue model over the library models + binary-vs-extracted-model correspondence",
@@ -120,7 +120,7 @@ CLAIMED["C18"] = dict(
 
 CLAIMED["C20"] = dict(
     category="fault_enumeration",
-    text="Two layers. (1) Coq theorems in coq/Props/Properties_C20.v on an operational allocation-fault model of the IO layer (Fault/Alloc.v, and restated on Io/Chain.v): for every chain of sinks, genuine-boolean stages and any/all multiplexers and EVERY set of failing allocation requests, the run is Failed or its sinks hold exactly the fault-free bytes (never 'Ok wrong'); a run that fails without faults fails under every fault set; a failed realloc leaves the malloc sink unchanged and a caller that stops at the first rejection leaves a prefix; necessity of the boolean-verdict premise (a size_t-as-bool done() hides failures). (2) Exhaustive single-fault enumeration on the real library built with its malloc/calloc/realloc/free (and jansson's) redirected at compile time: for each of 68+ scenarios (every entry point family, forged inputs, all registered algorithms in the thorough tier) and every k, the k-th request fails; verdict, fault-free re-verification of the product, leaks, caller-object integrity are checked; the chain scenarios are compared with the extracted fault model (verdict, sink bytes, number of requests).",
+    text="Two layers. (1) Coq theorems in coq/Props/Properties_C20.v on an operational allocation-fault model of the IO layer (Fault/Alloc.v, and restated on Io/Chain.v): for every chain of sinks, genuine-boolean stages and any/all multiplexers and EVERY set of failing allocation requests, the run is Failed or its sinks hold exactly the fault-free bytes (never 'Ok wrong'); a run that fails without faults fails under every fault set; a failed realloc leaves the malloc sink unchanged and a caller that stops at the first rejection leaves a prefix; necessity of the boolean-verdict premise (a size_t-as-bool done() hides failures). (2) Exhaustive single-fault enumeration on the real library built with its malloc/calloc/realloc/free (and jansson's) redirected at compile time: for each of 68+ scenarios (every entry point family, forged inputs, all registered algorithms in the thorough tier) and every k, the k-th request fails; verdict, fault-free re-verification of the product, leaks, caller-object integrity are checked; the chain scenarios are compared with the extracted fault model (verdict, sink bytes, number of requests). Also enumerated: jose_jwe_dec_jwk for RSA1_5, RSA-OAEP, ECDH-ES, PBES2, GCMKW, dir ('success implies key material').",
     design_ref="DESIGN.md section 3 C20",
     note="The theorems cover the IO-chain layer only; the glue of jws.c/jwe.c/jwk.c and the algorithm back ends have no Coq model and are decided by the enumeration (exhaustive over single faults in the listed scenarios, not a proof). OpenSSL/zlib internal allocations are out of scope. Open known findings: jansson json_dumps truncation and json_loadb crash under allocation failure.",
     technique="Coq proof on the IO-chain fault model + exhaustive single-allocation-fault enumeration with compile-time allocator redirection, chains compared with the extracted model",
@@ -144,7 +144,7 @@ CLAIMED["C14"] = dict(
 
 CLAIMED["C17"] = dict(
     category="proof",
-    text="Theorems in coq/Props/Properties_C17.v: (A) configuration contexts as a state machine over arbitrary operation histories -- operations on one context never change another context's handler, user pointer, deliveries or call results (C17_ctx_isolated), every delivery carries the handler and pointer registered with its own context, get_err_misc returns the last registered pointer, clearing falls back to the default handler; (B) an ownership model of the header-merge prologue gives back every reference; (C) C17_schedule_free: if every thread reads/writes only its own component, every schedule yields the sequential per-thread results (induction on schedules), with a counterexample when the footprint premise fails. Tie: all histories of length <= 4 over 23 context operations vs real contexts with logging handlers; every read-only entry point and the shared-template paths called on valid and mutated inputs with deep-equality, dump and reference-count comparison of every argument; 2..16 threads of independent operations vs the sequential run (TSan in the thorough tier).",
+    text="Theorems in coq/Props/Properties_C17.v: (A) configuration contexts as a state machine over arbitrary operation histories -- operations on one context never change another context's handler, user pointer, deliveries or call results (C17_ctx_isolated), every delivery carries the handler and pointer registered with its own context, get_err_misc returns the last registered pointer, clearing falls back to the default handler; (B) an ownership model of the header-merge prologue gives back every reference; (C) C17_schedule_free: if every thread reads/writes only its own component, every schedule yields the sequential per-thread results (induction on schedules), with a counterexample when the footprint premise fails. Tie: all histories of length <= 4 over 23 context operations vs real contexts with logging handlers; every read-only entry point and the shared-template paths called on valid and mutated inputs with deep-equality, dump and reference-count comparison of every argument; 2..16 threads of independent operations vs the sequential run (TSan in the thorough tier). Also exercised: error routing -- every entry point once with cfg == NULL (default handler read back from stderr) and once with a context: same error sequence at that context's handler with its user pointer, nothing on stderr, nothing at another context; ECDH-ES objects whose epk carries usage / unknown members in the argument-preservation runs.",
     design_ref="DESIGN.md section 3 C17",
     note="PARTIAL for schedules: the footprint premise of C17_schedule_free is not proved for the C code (no concurrent C semantics available) -- it is checked dynamically (result comparison, TSan, a scan of lib/ for writable objects with static storage). Argument preservation is checked dynamically on the implementation; on the immutable-tree models it is trivial.",
     technique="Coq proof (induction over histories / schedules) + exhaustive short-history correspondence + dynamic purity/thread checks",
@@ -152,7 +152,7 @@ CLAIMED["C17"] = dict(
 
 CLAIMED["C02"] = dict(
     category="proof",
-    text="Theorems in coq/Props/Properties_C02.v about Gallina models of jose_jwe_dec_jwk / jose_jwe_dec_cek(_io) / jose_jwe_dec (lib/jwe.c) and of the per-algorithm unwrap and content-decryption code (lib/openssl/*.c): success means exactly that the key unwraps a CEK from the targeted recipient and that AEAD-open succeeds under that CEK over the AAD input protected [|| '.' || aad] IN FULL, the iv, the ciphertext octets and the tag, followed by inflate when zip is in the protected header; no recipient / no key gives failure. Tie: library-produced tokens for key-management x content-encryption x zip x aad (absent, shorter, equal, longer than protected), decrypted with the recipient key, a foreign key and key sets; single-character mutations of every integrity-relevant member (protected, aad, iv, ciphertext, tag, encrypted_key, p2s, p2c, epk, wrapped iv/tag) and structural mutations; symmetric and PBES2 recipients also on the extracted model with independent Gallina AES-GCM / CBC-HMAC / RFC 3394 / PBKDF2 / inflate.",
+    text="Theorems in coq/Props/Properties_C02.v about Gallina models of jose_jwe_dec_jwk / jose_jwe_dec_cek(_io) / jose_jwe_dec (lib/jwe.c) and of the per-algorithm unwrap and content-decryption code (lib/openssl/*.c): success means exactly that the key unwraps a CEK from the targeted recipient and that AEAD-open succeeds under that CEK over the AAD input protected [|| '.' || aad] IN FULL, the iv, the ciphertext octets and the tag, followed by inflate when zip is in the protected header; no recipient / no key gives failure. Tie: library-produced tokens for key-management x content-encryption x zip x aad (absent, shorter, equal, longer than protected), decrypted with the recipient key, a foreign key and key sets; single-character mutations of every integrity-relevant member (protected, aad, iv, ciphertext, tag, encrypted_key, p2s, p2c, epk, wrapped iv/tag) and structural mutations; symmetric and PBES2 recipients also on the extracted model with independent Gallina AES-GCM / CBC-HMAC / RFC 3394 / PBKDF2 / inflate. Also exercised: tokens without any protected header; PBES2 at the maximum count with upward changes of p2c; forged recipients (raw content key as encrypted_key under RSA1_5 / RSA-OAEP / A128KW / ECDH-ES); epk.y negated (open known finding).",
     design_ref="DESIGN.md section 3 C02",
     note="Coq kernel; no axioms; integrity of the primitives (a changed input makes AEAD-open / unwrap fail) is cryptography and not proved; ECDH-ES and RSA recipients are checked on the implementation with the mutation oracle in this check.",
     technique="Coq proof (closed form of the decryption pipeline) + extracted-model correspondence with mutation",
@@ -160,7 +160,7 @@ CLAIMED["C02"] = dict(
 
 CLAIMED["C04"] = dict(
     category="proof",
-    text="Theorems in coq/Props/Properties_C04.v: the content layer round trip dec(enc(pt)) = pt for AES-GCM and AES-CBC-HMAC models of lib/openssl/aesgcm.c / aescbch.c, proved from the AEAD law of the primitive (what enc stores in iv/tag/ciphertext is what dec reads, over the same AAD input); the product of jose_jwe_enc_cek is the RFC 7516 construction (enc recorded, protected encoded once, compress-before-encrypt exactly when zip is protected, seal, base64url); decryption is its mirror. Tie, both directions: every recipient key of jose-produced tokens (all key-management x content-encryption x zip x aad, plaintext lengths 0..4352 [70000 thorough], parameters in protected or split headers) decrypts in jose AND on the independent model (symmetric and PBES2 extracted; ECDH-ES over BigZ and RSA with a checked witness inside coqc); ciphertext and tag bit-identical to the model's re-encryption under the same CEK and IV; model-produced tokens (incl. stored-block DEFLATE) decrypt in jose; all RFC 7520 section 5 examples; two-recipient tokens, foreign keys, re-wrapping a recovered CEK to a third recipient.",
+    text="Theorems in coq/Props/Properties_C04.v: the content layer round trip dec(enc(pt)) = pt for AES-GCM and AES-CBC-HMAC models of lib/openssl/aesgcm.c / aescbch.c, proved from the AEAD law of the primitive (what enc stores in iv/tag/ciphertext is what dec reads, over the same AAD input); the product of jose_jwe_enc_cek is the RFC 7516 construction (enc recorded, protected encoded once, compress-before-encrypt exactly when zip is protected, seal, base64url); decryption is its mirror. Tie, both directions: every recipient key of jose-produced tokens (all key-management x content-encryption x zip x aad, plaintext lengths 0..4352 [70000 thorough], parameters in protected or split headers) decrypts in jose AND on the independent model (symmetric and PBES2 extracted; ECDH-ES over BigZ and RSA with a checked witness inside coqc); ciphertext and tag bit-identical to the model's re-encryption under the same CEK and IV; model-produced tokens (incl. stored-block DEFLATE) decrypt in jose; all RFC 7520 section 5 examples; two-recipient tokens, foreign keys, re-wrapping a recovered CEK to a third recipient. Also exercised: tokens without protected header in both directions; ECDH-ES tokens on P-521 chosen so that half of the BigZ-checked sample has a shared secret with a leading zero octet; one call with a key set (array / JWKSet) x recipient template forms, and with the algorithm named once in the protected / shared header.",
     design_ref="DESIGN.md section 3 C03/C04",
     note="Coq kernel; no axioms in the theorems; AEAD / key-wrap laws are hypotheses (validated, not proved); Int63 primitives only inside the BigZ evaluation.",
     technique="Coq proof from primitive laws + bit-exact and cross-decryption correspondence with independent Gallina primitives",
